@@ -287,4 +287,25 @@ theorem round_entered_iff (sc : Scripts) (w : World) :
     · rfl
 
 
+/-- **an error outside every heart_beat switches off nobody** (call_out callbacks, reset()/clean_up(), commands): with
+    current_heart_beat = 0 - which `NV.Gen.C11.chbTail` guarantees for everything call_heart_beat runs after the round -
+    error_handler leaves the heart-beat list, the cursor and the set of objects alone -/
+theorem error_outside_heart_beat_switches_off_nobody (w : World) (h : w.cur = none) :
+    (errorEntry w).hbs = w.hbs ∧ (errorEntry w).idx = w.idx ∧ (errorEntry w).todo = w.todo ∧
+    (errorEntry w).dead = w.dead ∧ (errorEntry w).cur = none := by
+  unfold errorEntry
+  rw [errorHandler_eq_ref]
+  unfold errorHandlerRef
+  simp [h]
+
+/-- ... and the specification says the same: an `err` event while no heart_beat is running changes no entry -/
+theorem oracle_error_outside_heart_beat (j : JState) (o : Nat) (h : j.cur = none) :
+    (judge1 j (.err o)).all = j.all ∧ (judge1 j (.err o)).bad = j.bad := by
+  have e : judge1 j (.err o) = (if j.inRound then { j with expect := .abort } else j) := by
+    simp only [judge1, h]
+  rw [e]
+  split <;> exact ⟨rfl, rfl⟩
+
+example : (errorEntry { hbs := [⟨2, 1, 1⟩, ⟨3, 2, 2⟩], cap := 32, cur := none }).hbs = [⟨2, 1, 1⟩, ⟨3, 2, 2⟩] := by decide
+
 end NV.C11
